@@ -602,46 +602,19 @@ type mwDownstream struct {
 	sess []*mwSession
 }
 
+// The downstream actor is harness code that shares its records with the judge
+// through the scheduler's (hidden) synchronisation: excluded from race
+// instrumentation like the client actors (closures are functions of their own,
+// hence the named methods).
+//
+//go:norace
 func (d *mwDownstream) ServeNostr(ctx context.Context, send chan<- mocrelay.ServerMsg, recv <-chan mocrelay.ClientMsg) error {
 	ci, _ := ctx.Value(mwCtxKey{}).(int)
 	s := d.sess[ci]
 	verifsim.NameMe(fmt.Sprintf("down%d", ci))
 	done := make(chan struct{})
-	go func() {
-		defer close(done)
-		verifsim.NameMe(fmt.Sprintf("down%d.em", ci))
-		for _, e := range d.c.Clients[ci].Down {
-			verifsim.Yield(fmt.Sprintf("down%d.em", ci))
-			var m mocrelay.ServerMsg
-			switch e.T {
-			case "EOSE":
-				m = mocrelay.NewServerEOSEMsg(e.Sub)
-			case "EVENT":
-				m = mocrelay.NewServerEventMsg(e.Sub, d.evs[e.Ev])
-			case "OK":
-				m = mocrelay.NewServerOKMsg(d.evs[e.Ev].ID, e.Ev%2 == 0, "", "from downstream")
-			case "NOTICE":
-				m = mocrelay.NewServerNoticeMsg("downstream notice")
-			case "CLOSED":
-				m = mocrelay.NewServerClosedMsg(e.Sub, "error: ", "downstream closed it")
-			case "COUNT":
-				m = mocrelay.NewServerCountMsg(e.Sub, uint64(e.Ev), nil)
-			case "AUTH":
-				m = &mocrelay.ServerAuthMsg{Challenge: "challenge"}
-			}
-			r := &mwDownRec{msg: m, start: d.sim.Stamp()}
-			s.emits = append(s.emits, r)
-			s.byMsg[m] = r
-			select {
-			case send <- m:
-				r.done = d.sim.Stamp()
-				r.doneT = time.Now()
-			case <-ctx.Done():
-				return
-			}
-		}
-	}()
-	defer func() { <-done; s.ended = true }()
+	go d.emitLoop(ctx, ci, s, send, done)
+	defer d.serveEnd(s, done)
 	for {
 		verifsim.Yield(fmt.Sprintf("down%d", ci))
 		select {
@@ -655,10 +628,51 @@ func (d *mwDownstream) ServeNostr(ctx context.Context, send chan<- mocrelay.Serv
 			if ev, ok := m.(*mocrelay.ClientEventMsg); ok && ev.Event.Content == mwPanicContent {
 				// the wrapped handler crashes; whoever serves the connection recovers
 				// (as net/http does per connection)
-				d.sim.Res.Stats.Fault("handler-panic")
-				s.crashed = true
+				s.crashed = true // (counted as a fault by the judge; map operations of
+				// harness bookkeeping report to the race detector even from norace code)
 				panic("verif: downstream handler crashed")
 			}
+		}
+	}
+}
+
+//go:norace
+func (d *mwDownstream) serveEnd(s *mwSession, done chan struct{}) {
+	<-done
+	s.ended = true
+}
+
+//go:norace
+func (d *mwDownstream) emitLoop(ctx context.Context, ci int, s *mwSession, send chan<- mocrelay.ServerMsg, done chan struct{}) {
+	defer close(done)
+	verifsim.NameMe(fmt.Sprintf("down%d.em", ci))
+	for _, e := range d.c.Clients[ci].Down {
+		verifsim.Yield(fmt.Sprintf("down%d.em", ci))
+		var m mocrelay.ServerMsg
+		switch e.T {
+		case "EOSE":
+			m = mocrelay.NewServerEOSEMsg(e.Sub)
+		case "EVENT":
+			m = mocrelay.NewServerEventMsg(e.Sub, d.evs[e.Ev])
+		case "OK":
+			m = mocrelay.NewServerOKMsg(d.evs[e.Ev].ID, e.Ev%2 == 0, "", "from downstream")
+		case "NOTICE":
+			m = mocrelay.NewServerNoticeMsg("downstream notice")
+		case "CLOSED":
+			m = mocrelay.NewServerClosedMsg(e.Sub, "error: ", "downstream closed it")
+		case "COUNT":
+			m = mocrelay.NewServerCountMsg(e.Sub, uint64(e.Ev), nil)
+		case "AUTH":
+			m = &mocrelay.ServerAuthMsg{Challenge: "challenge"}
+		}
+		r := &mwDownRec{msg: m, start: d.sim.Stamp()}
+		s.emits = append(s.emits, r)
+		select {
+		case send <- m:
+			r.done = d.sim.Stamp()
+			r.doneT = time.Now()
+		case <-ctx.Done():
+			return
 		}
 	}
 }
@@ -828,7 +842,24 @@ func isRejection(m mocrelay.ServerMsg, req mocrelay.ClientMsg) bool {
 	return false
 }
 
+// indexEmits (driver only) rebuilds the message index of every session from
+// the emission records.
+func (d *mwDownstream) indexEmits() {
+	for _, s := range d.sess {
+		s.byMsg = map[mocrelay.ServerMsg]*mwDownRec{}
+		for _, r := range s.emits {
+			s.byMsg[r.msg] = r
+		}
+	}
+}
+
 func mwJudge(sim *simrt.Sim, c *MwCase, cls []*simrt.Client, down *mwDownstream, stack []MwSpec) {
+	down.indexEmits()
+	for _, s := range down.sess {
+		if s.crashed {
+			sim.Res.Stats.Fault("handler-panic")
+		}
+	}
 	st := &sim.Res.Stats
 	prop := c.Prop
 	nRej, nFwd, nMay, nDrop := 0, 0, 0, 0
@@ -1123,6 +1154,7 @@ func possibleOpen(evs []gEv) (canOpen, canClosed bool) {
 func mwCheckMetrics(sim *simrt.Sim, c *MwCase, cls []*simrt.Client, down *mwDownstream, reg *prometheus.Registry, stack []MwSpec) {
 	st := &sim.Res.Stats
 	st.Probe("gauge_checks")
+	down.indexEmits()
 	got, err := mwGather(reg)
 	if err != nil {
 		sim.Violate("C19", "gather-error", nil, "Gather: %v", err)
